@@ -55,6 +55,12 @@ def lossless(seed, n):
         tm = r.choice([[b"%H", b"%M", b"%E*S"], [b"%H", b"%M", b"%S", b"%E*f"], [b"%H", b"%M", b"%E15S"], [b"%H", b"%M", b"%E18S"],
                        [b"%H", b"%M", b"%S", b"%E15f"], [b"%H", b"%M", b"%E16S"]])
         off = r.choice([b"%E*z", b"%::z", b"%:::z", b"%E*z", b"%z", b"%Ez", b"%:z"])
+        # the hour through the 12-hour clock: %I with %p, the marker before or after it, anywhere in the format
+        if r.random() < 0.25:
+            tm = [b"%I" if x == b"%H" else x for x in tm]
+            date = date + [b"%p"] if r.random() < 0.5 else date
+            if b"%p" not in date:
+                tm = tm + [b"%p"] if r.random() < 0.5 else [b"%p"] + tm
         parts = [year] + date + [off]
         # the time items keep their relative order when seconds and fraction are separate (the fraction must follow)
         r.shuffle(parts)
